@@ -319,7 +319,7 @@ def coq_term(c, io):
 
 
 KCLASS = {0: None, 1: "known_C15_K1_and_before_or", 2: "known_C15_K2_eq_before_rel",
-          3: "known_C15_K3_mod_zero_opposite_sign", 4: "known_C15_K4_relational_on_bool"}
+          4: "known_C15_K4_relational_on_bool"}
 
 
 def judge(c, io, r):
@@ -362,12 +362,12 @@ def shrink(c):
 
 
 THEOREMS = ["C15_operators_tie", "C15_parse_print", "C15_chain_value", "C15_grouping", "C15_nodes_small", "C15_main",
-            "C15_refuted_and_or", "C15_refuted_eq_rel", "C15_refuted_mod", "C15_refuted_rel_bool", "C15_small_trees"]
+            "C15_refuted_and_or", "C15_refuted_eq_rel", "C15_mod_fixed", "C15_refuted_rel_bool", "C15_small_trees"]
 
 LEVEL_TEXT = ("proof: parse(print t) = canon t by induction on ALL trees over a fuelled model of the nom layering (outside class K2); the right-nested "
               "and/or chain has Sass's value outside K1; per-node operators agree with the reference on a small operand set by finite sweep "
               "(outside K3/K4); exhaustive vm_compute sweep of all small trees; the model is tied to the code by translating the operator / "
               "parser-layer tables on every run and by correspondence of BOTH the parse tree (Debug output) and the value on every case")
 LEVEL_NOTE = ("trusted: Coq kernel+vm_compute, Flocq binary64, gen/gens/Operators.py, the harness, Spec/SassExpr.v; the full statement is false "
-              "on the pinned tree in four recorded classes (F22a, F22b, F30, F31)")
+              "on the pinned tree in four recorded classes (F22a, F22b, F31; F30 fixed upstream by cc06893)")
 TECHNIQUE = "Coq proof (induction on expression trees over a fuelled recursive-descent parser model) + translator + differential correspondence"
